@@ -19,6 +19,7 @@ import (
 	"github.com/alephium/wormhole-fork/node/verifh/cm"
 	"github.com/alephium/wormhole-fork/node/verifh/ev"
 	"github.com/alephium/wormhole-fork/node/verifh/vaacoop"
+	"github.com/alephium/wormhole-fork/node/verifh/vaahist"
 	"github.com/alephium/wormhole-fork/node/verifh/mc"
 )
 
@@ -367,6 +368,8 @@ func main() {
 
 	// ---- (a'') concurrent callers under every schedule with <= 2 (thorough 3) preemptions
 	nontriv += int64(vaacoop.Explore(r, r.Pick(2, 3), r.Thorough()))
+	// operation histories on one VAA object: the encoding is a function of the current field values alone
+	nontriv += int64(vaahist.Explore(r, "C05", r.Pick(4, 5)))
 
 	// ---- (a''') the contract-side decoders of the same encoding (layout tables extracted at check time): where the
 	// body starts for a VAA with n signatures must be where the Go encoder puts it, for every n - in particular
